@@ -62,6 +62,16 @@ CLAIMED = {
             "inversion, expected log-factor), diagonal measure / density / conditional vs the full-matrix classes, identity and "
             "identity-diagonal conditionals vs ConditionalGaussianPDF with M=I, b=0 for every operation and batch layout, NN-controlled "
             "conditional with fixed control vs ConditionalGaussianPDF(M(u), b(u)).", BASE_NOTE, "DESIGN §6-C15"),
+    "C18": ("Decides the contract-expressible part: the REAL registered flatten/unflatten lambdas (captured by substituting "
+            "jax.tree_util.register_pytree_node) round-trip every factor / measure / density / conditional class in every cache state with "
+            "all attributes proved equal; every pytree child is an array or None (the structural precondition of jit/vmap/scan; open known "
+            "finding for ConstantFactor and the NN-controlled conditional); to_dict/from_dict round trips; the numeric replay runs the real "
+            "jax.jit on each class. Numerical agreement of jit/vmap/grad with eager execution / finite differences is JAX semantics and is "
+            "NOT claimed.", BASE_NOTE + " jax.tree_util calls the registered functions as registered (assumed).", "DESIGN §6-C18, §11"),
+    "C19": ("sample(key, n) is proved to be mu + L z with L = cholesky(Sigma) and z = jax.random.normal(key, (n,R,D)) (pairing of L[a] with "
+            "z[:,a,:], shape [n,R,D]), deterministic in the key, depending on the stream only through its own draw and component, with no "
+            "other randomness. The law N(mu, Sigma) then follows from the assumed contracts of cholesky / random.normal and G3; statistical "
+            "moment clauses are not part of this technique.", BASE_NOTE, "DESIGN §6-C19, §11"),
     "C10": ("For every conditional kind and both batch conventions, the real set_y + evaluate_ln/product are executed on symbolic "
             "arrays with symbolic sizes N, Nx, Dx, Dy and the result is proved equal (normal form) to ln N(y; Mx+b, Sigma); "
             "holds for all sizes and values at once.", BASE_NOTE, "DESIGN §6-C10"),
